@@ -182,7 +182,7 @@ fn adversarial(r: &mut Rng, i: u64) -> (String, String) {
             ("cmap-soup".into(), format!("M {} {}", hex_tok(s.as_bytes()), hex_tok(&r.bytes(tl)))) }
         11 => { // search windows: tens of thousands of `%%EOF` / `startxref` / `%PDF-` markers, with and without one near the end
             let marker: &[u8] = *r.pick(&[&b"%%EOF\n"[..], b"startxref\n1\n%%EOF\n", b"%PDF-1.4\n", b"endobj\n", b"xref\n"]);
-            let n = *r.pick(&[100usize, 5000, 20000, 60000]);
+            let n = *r.pick(&[100usize, 5000, 20000, 60000, 150000, 300000]);
             let mut f = b"%PDF-1.4\n1 0 obj\nnull\nendobj\n".to_vec();
             for _ in 0..n { f.extend_from_slice(marker); }
             // padding so that the last 512 / 1024 bytes hold no marker at all (or just one)
